@@ -115,6 +115,30 @@ def sgn(v, n): return v - (1 << n) if v >> (n - 1) else v
 def bv(v, n): return v if isinstance(v, z3.ExprRef) else z3.BitVecVal(v, n)
 
 
+def lead_zeros(e, n):
+    """number of leading bits of the n-bit term e that are syntactically zero (zero extension)"""
+    if z3.is_bv_value(e): return n - e.as_long().bit_length()
+    if z3.is_app(e):
+        k = e.decl().kind()
+        if k == z3.Z3_OP_CONCAT and z3.is_bv_value(e.arg(0)) and e.arg(0).as_long() == 0: return e.arg(0).size()
+        if k == z3.Z3_OP_ZERO_EXT: return e.params()[0]
+    return 0
+
+
+def whole_slices(cells):
+    """cells that are the consecutive byte slices Extract(l+8k+7, l+8k, v) of one term v (as written by Exec.explode): the term
+    they spell, else None.  z3.simplify rewrites bottom-up and would push the slices into v before it could merge them."""
+    base = None; l0 = 0
+    for k, c in enumerate(cells):
+        if not is_sym(c) or not z3.is_app(c) or c.decl().kind() != z3.Z3_OP_EXTRACT: return None
+        hi, lo = c.params()
+        if k == 0: base = c.arg(0); l0 = lo
+        elif not c.arg(0).eq(base): return None
+        if lo != l0 + 8 * k or hi != lo + 7: return None
+    w = 8 * len(cells)
+    return base if l0 == 0 and base.size() == w else z3.Extract(l0 + w - 1, l0, base)
+
+
 def simp(e):
     e = z3.simplify(e)
     if z3.is_bv_value(e): return e.as_long()
@@ -433,7 +457,9 @@ class Exec:
             raise Inconclusive('integer load of partial pointer bytes')
         hit = s.bytecache.get(tuple(c.get_id() if is_sym(c) else ('c', c) for c in cells)) if n > 1 else None
         if hit is not None: e = hit[0]
-        else: e = z3.Concat(*[bv(c, 8) for c in reversed(cells)]) if n > 1 else bv(cells[0], 8)
+        else:
+            e = whole_slices(cells) if n > 1 else None
+            if e is None: e = z3.Concat(*[bv(c, 8) for c in reversed(cells)]) if n > 1 else bv(cells[0], 8)
         if isinstance(ty, IntT) and ty.n != n * 8: e = z3.Extract(ty.n - 1, 0, e)
         return simp(e)
 
@@ -947,6 +973,7 @@ class Exec:
             return mask(r, n)
         A, B = bv(a, n), bv(b, n)
         bad = None
+        if op == 'mul' and flags and lead_zeros(A, n) + lead_zeros(B, n) >= n + (1 if 'nsw' in flags else 0): flags = ()
         if op in ('add', 'sub', 'mul') and flags:
             bads = []
             if 'nsw' in flags:
